@@ -540,4 +540,7 @@ def run(ctx):
     alignment(ctx)
     routing(ctx)
     grant_and_lock(ctx)
+    ob8 = ctx.ob("C01.8", "a read issued after a write waits for the write-to-read turnaround: every way from write mode to read mode passes the tWTR gate after the last write "
+                          "(shared with C03.5) - a read command inside that window overtakes the write burst inside the device and returns the bytes from before the write", 2)
+    share(ctx, ob8, "C03", ("C03.5",))
     ctx.assume("same address => same bank queue is discharged by C06; timing of real PHYs, the DRAM itself and data values are not decided")
